@@ -339,83 +339,7 @@ func checkC06(e *Engine, r *Report) {
 	n += r.WhoMayWrite("R3", c.fUpdates, "journal.updates", set(FnName(c.startJournal), FnName(c.jAssign), FnName(c.commitJournal)), c.fns)
 	r.MinInstances("R3 writers (libmem state)", n, 24)
 
-	for _, t := range []struct {
-		fn, j *ssa.Function
-		what  string
-	}{{c.zoneAssign, c.jAssign, "journal.assign"}, {c.zoneRemove, c.jDelete, "journal.delete"}} {
-		if t.fn == nil || t.j == nil {
-			continue
-		}
-		fn := t.fn
-		isJ := func(in ssa.Instruction) bool { return e.IsCallTo(in, fset(t.j)) }
-		// every mutation of users is journaled: from each mutation all returns pass the journal call, or the journal call precedes it
-		AllInstrs(fn, func(in ssa.Instruction) {
-			if !(isMapWriteOf(in, c.fUsers) || isMapWriteOf(in, c.fZoneUsers)) {
-				return
-			}
-			after := FindPath(PathQuery{Fn: fn, From: in, Block: isJ, Target: func(x ssa.Instruction) bool { _, ok := x.(*ssa.Return); return ok }})
-			before := FindPath(PathQuery{Fn: fn, Block: isJ, Target: func(x ssa.Instruction) bool { return x == in }})
-			ok := after == nil || before == nil
-			r.Check("R3:journaled@"+FnName(fn), "R3 journal completeness",
-				"every write to the users maps in "+fn.Name()+" is recorded by "+t.what+" on all paths", e.InstrPos(in), fn, ok,
-				e.pathString(after), true)
-		})
-		// the journal call records the same (zone, id) the primitive was called with
-		for _, jc := range e.callsTo(fn, t.j) {
-			a := callArgs(jc)
-			okZone := len(a) == 3 && paramIndex(a[1]) == 1
-			r.Check("R3:journal-args@"+FnName(fn), "R3 journal completeness", t.what+" is given the zone parameter of "+fn.Name(),
-				e.InstrPos(jc), fn, okZone, "", true)
-		}
-	}
-	// first-write-wins for revert records (an entry must hold the pre-transaction zone)
-	for _, fn := range []*ssa.Function{c.jAssign, c.jDelete} {
-		if fn == nil || c.fReverts == nil {
-			continue
-		}
-		assumeExists := func(cond ssa.Value) (bool, bool) {
-			ex, ok := cond.(*ssa.Extract)
-			if !ok || ex.Index != 1 {
-				return false, false
-			}
-			lk, ok := ex.Tuple.(*ssa.Lookup)
-			if !ok || !lk.CommaOk {
-				return false, false
-			}
-			if f, _ := loadedField(lk.X); f == c.fReverts {
-				return true, true
-			}
-			return false, false
-		}
-		r.Unreachable("R3:first-write-wins@"+FnName(fn), "R3 journal completeness",
-			"a revert record that already exists is never overwritten (it holds the pre-transaction zone)", fn, nil,
-			func(in ssa.Instruction) bool { mu, ok := in.(*ssa.MapUpdate); return ok && isMapWriteOf(mu, c.fReverts) }, assumeExists)
-	}
-	if c.jAssign != nil && c.fUpdates != nil {
-		// updates[id] = zone is unconditional once the journal exists
-		fn := c.jAssign
-		okU := false
-		AllInstrs(fn, func(in ssa.Instruction) {
-			if mu, ok := in.(*ssa.MapUpdate); ok && isMapWriteOf(mu, c.fUpdates) {
-				if paramIndex(mu.Value) == 1 && paramIndex(mu.Key) == 2 {
-					okU = true
-				}
-			}
-		})
-		r.Check("R3:updates-recorded@"+FnName(fn), "R3 journal completeness", "journal.assign records updates[id] = zone with its own parameters",
-			e.Pos(fn.Pos()), fn, okU, "", true)
-		// and no revert-exists early return precedes it
-		r.MustPass("R3:updates-unconditional@"+FnName(fn), "R3 journal completeness",
-			"journal.assign records the update on every path on which the journal is active", fn, nil, nil,
-			func(in ssa.Instruction) bool { mu, ok := in.(*ssa.MapUpdate); return ok && isMapWriteOf(mu, c.fUpdates) },
-			func(cond ssa.Value) (bool, bool) { // j == nil is false
-				b, ok := cond.(*ssa.BinOp)
-				if ok && (b.Op == token.EQL || b.Op == token.NEQ) && (paramIndex(b.X) == 0 || paramIndex(b.Y) == 0) {
-					return true, b.Op == token.NEQ
-				}
-				return false, false
-			})
-	}
+	c.checkJournaling(r)
 	// cleanupUnusedZones deletes only empty zones
 	if fn := r.Anchor(pkgLM, "Allocator.cleanupUnusedZones"); fn != nil {
 		AllInstrs(fn, func(in ssa.Instruction) {
@@ -787,4 +711,87 @@ func isParamOrCaptureOfParam(v ssa.Value, fn *ssa.Function, idx int) bool {
 		return found
 	}
 	return false
+}
+
+// checkJournaling: zoneAssign/zoneRemove record every mutation in the journal
+// (shared by C06 rule 3 and C07 rule 3).
+func (c *lmCtx) checkJournaling(r *Report) {
+	e := c.e
+	for _, t := range []struct {
+		fn, j *ssa.Function
+		what  string
+	}{{c.zoneAssign, c.jAssign, "journal.assign"}, {c.zoneRemove, c.jDelete, "journal.delete"}} {
+		if t.fn == nil || t.j == nil {
+			continue
+		}
+		fn := t.fn
+		isJ := func(in ssa.Instruction) bool { return e.IsCallTo(in, fset(t.j)) }
+		// every mutation of users is journaled: from each mutation all returns pass the journal call, or the journal call precedes it
+		AllInstrs(fn, func(in ssa.Instruction) {
+			if !(isMapWriteOf(in, c.fUsers) || isMapWriteOf(in, c.fZoneUsers)) {
+				return
+			}
+			after := FindPath(PathQuery{Fn: fn, From: in, Block: isJ, Target: func(x ssa.Instruction) bool { _, ok := x.(*ssa.Return); return ok }})
+			before := FindPath(PathQuery{Fn: fn, Block: isJ, Target: func(x ssa.Instruction) bool { return x == in }})
+			ok := after == nil || before == nil
+			r.Check("R3:journaled@"+FnName(fn), "R3 journal completeness",
+				"every write to the users maps in "+fn.Name()+" is recorded by "+t.what+" on all paths", e.InstrPos(in), fn, ok,
+				e.pathString(after), true)
+		})
+		// the journal call records the same (zone, id) the primitive was called with
+		for _, jc := range e.callsTo(fn, t.j) {
+			a := callArgs(jc)
+			okZone := len(a) == 3 && paramIndex(a[1]) == 1
+			r.Check("R3:journal-args@"+FnName(fn), "R3 journal completeness", t.what+" is given the zone parameter of "+fn.Name(),
+				e.InstrPos(jc), fn, okZone, "", true)
+		}
+	}
+	// first-write-wins for revert records (an entry must hold the pre-transaction zone)
+	for _, fn := range []*ssa.Function{c.jAssign, c.jDelete} {
+		if fn == nil || c.fReverts == nil {
+			continue
+		}
+		assumeExists := func(cond ssa.Value) (bool, bool) {
+			ex, ok := cond.(*ssa.Extract)
+			if !ok || ex.Index != 1 {
+				return false, false
+			}
+			lk, ok := ex.Tuple.(*ssa.Lookup)
+			if !ok || !lk.CommaOk {
+				return false, false
+			}
+			if f, _ := loadedField(lk.X); f == c.fReverts {
+				return true, true
+			}
+			return false, false
+		}
+		r.Unreachable("R3:first-write-wins@"+FnName(fn), "R3 journal completeness",
+			"a revert record that already exists is never overwritten (it holds the pre-transaction zone)", fn, nil,
+			func(in ssa.Instruction) bool { mu, ok := in.(*ssa.MapUpdate); return ok && isMapWriteOf(mu, c.fReverts) }, assumeExists)
+	}
+	if c.jAssign != nil && c.fUpdates != nil {
+		// updates[id] = zone is unconditional once the journal exists
+		fn := c.jAssign
+		okU := false
+		AllInstrs(fn, func(in ssa.Instruction) {
+			if mu, ok := in.(*ssa.MapUpdate); ok && isMapWriteOf(mu, c.fUpdates) {
+				if paramIndex(mu.Value) == 1 && paramIndex(mu.Key) == 2 {
+					okU = true
+				}
+			}
+		})
+		r.Check("R3:updates-recorded@"+FnName(fn), "R3 journal completeness", "journal.assign records updates[id] = zone with its own parameters",
+			e.Pos(fn.Pos()), fn, okU, "", true)
+		// and no revert-exists early return precedes it
+		r.MustPass("R3:updates-unconditional@"+FnName(fn), "R3 journal completeness",
+			"journal.assign records the update on every path on which the journal is active", fn, nil, nil,
+			func(in ssa.Instruction) bool { mu, ok := in.(*ssa.MapUpdate); return ok && isMapWriteOf(mu, c.fUpdates) },
+			func(cond ssa.Value) (bool, bool) { // j == nil is false
+				b, ok := cond.(*ssa.BinOp)
+				if ok && (b.Op == token.EQL || b.Op == token.NEQ) && (paramIndex(b.X) == 0 || paramIndex(b.Y) == 0) {
+					return true, b.Op == token.NEQ
+				}
+				return false, false
+			})
+	}
 }
